@@ -61,10 +61,48 @@ def run(pid, tier):
             o.samples.append({'kind': name + ' constructor call (real code -> TraceCtor)', 'event': json.loads(lines[len(lines) // 3])})
             o.samples.append({'kind': name + ' constructor call (real code -> TraceCtor)', 'event': json.loads(lines[-1])})
     o.extra['constructors_seen_in_sample'] = sorted(ctors_seen)
+    # weighted constructors: WeightedTreeIndex::{new,push,update} and WeightedAliasIndex::new verdicts (and the
+    # accessors len/get) through the C09 / C08 specifications
+    wide = 'u16,i16,u32,i32,u64,i64,u128,i128,usize'
+    for gi, (m, types, ops, maxlen, small, near) in enumerate([(255, 'u8', 2500, 12, 3, 6), (127, 'i8', 2500, 12, 3, 6),
+                                                              (255, wide, 300, 6, 2, 6), (255, 'f32,f64', 600, 8, 3, 0)]):
+        tr = wd / ('wtree_%d.ndjson' % gi)
+        s3 = rdv(['tree-drive', '--m', m, '--seed', sd + 100 + gi, '--ops', ops if not thorough else ops * 8, '--maxlen', maxlen,
+                  '--small', small, '--near', near, '--types', types, '--out', tr])
+        rr = tlc('TraceTree', 'TraceTree.cfg', pid, 'wtree_%d' % gi, trace_mode=True, env={'TRACE': tr, 'M': m}, timeout=3000, heap='4g')
+        require_ok(rr, 'TraceTree (C04)')
+        o.add_tlc(rr, 'TraceTree (weighted constructors) M=%d %s' % (m, types))
+        tl = tr.read_text().splitlines()
+        if rr.rejected or rr.violated:
+            kline = rr.distinct
+            ev = json.loads(tl[kline - 1]) if 0 < kline <= len(tl) else {}
+            o.traces += max(kline - 1, 0)
+            if ev.get('op') in ('new', 'push', 'update'):
+                o.finding(kind='weighted', ctor='WeightedTreeIndex::' + ev.get('op'), types=types, verdict=str(ev.get('res'))[:60], event=ev,
+                          signature='wtree:%s:%s:%s' % (types, ev.get('op'), str(ev.get('res'))[:40]))
+            else:
+                log('[note] weighted-tree trace stops at a %s event (C09/C10 business)' % ev.get('op'))
+        else:
+            o.traces += s3['events']
+    for gi, (m, types, n) in enumerate([(255, 'u8', 400), (127, 'i8', 400), (1073741824, 'u32,i64,u128,usize', 100), (255, 'f32,f64', 600)]):
+        tr = wd / ('walias_%d.ndjson' % gi)
+        s4 = rdv(['alias-drive', '--m', m, '--seed', sd + 200 + gi, '--vectors', n if not thorough else n * 8, '--maxlen', 400, '--types', types, '--out', tr])
+        rr = tlc('TraceAlias', 'TraceAlias.cfg', pid, 'walias_%d' % gi, trace_mode=True, env={'TRACE': tr, 'M': m}, timeout=3000, heap='4g')
+        require_ok(rr, 'TraceAlias (C04)')
+        if rr.rejected or rr.violated:
+            raise ToolError('alias trace not consumed')
+        o.add_tlc(rr, 'TraceAlias (weighted constructors) M=%d %s' % (m, types))
+        o.traces += s4['events']
+        for (ln, ev) in parse_bad(rr.out):
+            v = str(ev.get('verdict'))
+            want = ev.get('want') or ''
+            if v.split(' @ ')[0] != want and not (v == 'Ok' and want == ''):     # verdict (or panic) differs: C04; a reconstruction error alone is C08
+                o.finding(kind='weighted', ctor='WeightedAliasIndex::new', types=ev.get('ty'), verdict=v.split(' @ ')[0][:80], want=want, event=ev,
+                          signature='walias:%s:%s' % (ev.get('ty'), v.split(' @ ')[0][:60]))
     o.assumptions = [
         'the verdict tables are written from the doc comments (DESIGN Appendix A); regions marked ANY are unspecified and only judged for panics',
         'Hypergeometric::new runs under a 300 ms watchdog; a construction that does not return in time is logged as Timeout and is admissible only for N > 2^53 (construction time is not part of C04)',
         'Pert::with_mode lattice stays below 1e15 in magnitude (overflow of the internal range/shape products is not explored); Pert::with_mean only on the dyadic sub-lattice where the derived mode is exact',
-        'WeightedAliasIndex::new and WeightedTreeIndex::{new,push,update} verdicts are decided by C08/C09',
+        'WeightedAliasIndex::new and WeightedTreeIndex::{new,push,update} verdicts are judged through the C08/C09 specifications (TraceAlias, TraceTree) on recorded random calls',
     ]
     return o.finish()
